@@ -15,5 +15,8 @@ CHECKS = {
     "C04": dict(level="model_checking", technique=SE + "; ODE solutions are uninterpreted flow functions of (parameters in force, start state, elapsed time)",
                 text="The real Simulator and the real Scipy wrapper run on symbolic end times, time points, overrides and parameter values, with only scipy.integrate.solve_ivp/ode replaced by an uninterpreted flow obeying scipy's documented preconditions. For every history of the bounded family and every feasible path z3 proves: a continuation is refused iff its end <= the absolute time reached; the accumulated index equals the specified points, strictly increasing; every row equals Flow(parameters of that segment, previous final state with overrides, elapsed time); one parameter record per segment.",
                 note=NOTE + " The flow stub stands for any ODE solver that meets solve_ivp's contract; LSODA's numerical accuracy is outside the claim."),
+    "C10": dict(level="model_checking", technique=SE,
+                text="Every public view of Simulation (variables, fluxes, args, right-hand side, producers/consumers scaled or not, combined, new_y0, three normalisation shapes, split or concatenated) is executed on results whose states, time labels, per-segment parameters and normalisers are z3 terms; each cell is proved equal to the evaluator at that row's state under that segment's parameters (after the model's parameters were changed again), for every ordered pair/triple of reads.",
+                note=NOTE),
 }
 NOT_APPLICABLE = {}
